@@ -70,6 +70,13 @@ CLAIMED["C03"] = dict(
          "AHAB/HAB SRK tables; assumes SHA-256 does not collide on the root keys where the signer is looked up by hash.",
     ref="DESIGN.md section 3 C03")
 
+CLAIMED["C15"] = dict(
+    technique="symbolic execution of the real debug-credential / RoT-meta / DAR / DAC code (symx) over stub keys and UF "
+              "hash/signature + z3 QF_BV; field placement checked against independent offsets, signed bytes by argument capture",
+    note="Out of the claim: EdgeLock-enclave credentials, real signatures, YAML/key-file plumbing; assumes a key hash is "
+         "never all-zero (RotMetaRSA slot detection).",
+    ref="DESIGN.md section 3 C15")
+
 NOT_APPLICABLE = {
     "C18": "quantifies over OS-level crash points of a pickle file and over process schedules around a FileLock; the "
            "deciding code is pickle (C) / the file system / the scheduler - no SPSDK arithmetic or layout to encode; "
